@@ -21,8 +21,8 @@ import report
 from report import Run, new_result, run_pool
 
 ARMS = ["S", "R", "P", "F", "K"]  # success, revert, panic, fail flag (vm.assert), stuck
-REPLIES = ["sat", "satabs", "unsat", "unsaterr", "unsatnocore", "unknown", "timeout", "garbage", "empty", "exit3", "kill"]
-CLASS = {"sat": "SAT", "satabs": "SAT", "unsat": "UNSAT", "unsaterr": "UNSAT", "unsatnocore": "UNSAT", "unknown": "UNKNOWN", "timeout": "UNKNOWN", "garbage": "ERR", "empty": "ERR", "exit3": "ERR", "kill": "ERR"}
+REPLIES = ["sat", "satabs", "unsat", "unsaterr", "unsatnocore", "unknown", "timeout", "garbage", "empty", "exit3", "kill", "binary"]
+CLASS = {"sat": "SAT", "satabs": "SAT", "unsat": "UNSAT", "unsaterr": "UNSAT", "unsatnocore": "UNSAT", "unknown": "UNKNOWN", "timeout": "UNKNOWN", "garbage": "ERR", "empty": "ERR", "exit3": "ERR", "kill": "ERR", "binary": "ERR"}
 STUB = os.path.join(report.VERIF, "lib", "stubsolver.sh")
 WORK = os.path.join(report.VERIF, ".work")
 
@@ -351,14 +351,16 @@ def main():
         for attempt in range(2):
             delays = {int(k): float(v) for k, v in c.get("delays", {}).items()} if attempt == 0 else {}
             res2 = new_result()
-            scenario(list(c["arms"]), c.get("default_ok") in (True, "True"), replies, delays, flags, res2, "serial-rerun")
+            got2 = scenario(list(c["arms"]), c.get("default_ok") in (True, "True"), replies, delays, flags, res2, "serial-rerun")
+            c.setdefault("rerun_verdicts", []).append(str(got2))
             if res2.get("candidates"):
                 persists += 1
         if persists == 2:
             # slow motion: every time constant of the scenario (solver time limit, stub sleep, reply delays) x8.  A stub reply that missed the
             # time limit only because the machine is overloaded arrives in time now; an ordering defect in halmos does not depend on the scale
             res3 = new_result()
-            scenario(list(c["arms"]), c.get("default_ok") in (True, "True"), replies, {}, flags, res3, "slow-motion-rerun", scale=8.0)
+            got3 = scenario(list(c["arms"]), c.get("default_ok") in (True, "True"), replies, {}, flags, res3, "slow-motion-rerun", scale=8.0)
+            c["slow_motion_verdict"] = str(got3)
             if res3.get("candidates"):
                 run.violation(c["what"], c, key=c["key"])
             else:
